@@ -500,7 +500,101 @@ def check_vcf(prog, rep, tier):
 _orig_run2 = run
 
 
+def check_columns(prog, rep, tier):
+    """R4-columns: the column named by option <field>_col carries field <field> in to_pandas and feeds field <field> in from_pandas"""
+    nw = nr = 0
+    for f in prog.all_functions():
+        if f.name not in ("to_pandas", "from_pandas") or _is_abstract(f):
+            continue
+        params = set(f.params())
+        attrs = set(prog.all_props(f.cls)) | set(prog.init_params(f.cls)) if f.cls is not None and prog.mro(f.cls) is not None else set()
+        opts = {p_: p_[:-4] for p_ in params if p_.endswith("_col") and p_[:-4] in attrs}
+        if not opts:
+            continue
+        defs = {}
+        for n in walk_no_nested(f.node):
+            if isinstance(n, ast.Assign) and len(n.targets) == 1 and isinstance(n.targets[0], ast.Name):
+                defs.setdefault(n.targets[0].id, []).append(n.value)
+        if f.name == "to_pandas":
+            for n in walk_no_nested(f.node):
+                pairs = []
+                if isinstance(n, ast.Assign) and isinstance(n.targets[0], ast.Subscript) and isinstance(n.targets[0].slice, ast.Name) and n.targets[0].slice.id in opts:
+                    pairs.append((n.targets[0].slice.id, n.value, n))
+                elif isinstance(n, ast.Dict):
+                    for k, v in zip(n.keys, n.values):
+                        if isinstance(k, ast.Name) and k.id in opts:
+                            pairs.append((k.id, v, n))
+                def fields_of(e, depth=0, seen=()):
+                    out = set()
+                    if depth > 6:
+                        return {"?"}
+                    for x in ast.walk(e):
+                        fl = field_of(x) if isinstance(x, ast.Attribute) else None
+                        if fl is not None and fl in attrs:
+                            out.add(fl)
+                        elif isinstance(x, ast.Name) and x.id in defs and x.id not in seen:
+                            for d in defs[x.id]:
+                                out |= fields_of(d, depth + 1, seen + (x.id,))
+                    return out
+                for opt, v, node in pairs:
+                    fs = fields_of(v)
+                    if len(fs) != 1 or "?" in fs:
+                        continue
+                    fld = sorted(fs)[0]
+                    nw += 1
+                    rep.saw(f)
+                    construct = "%s[%s]" % (f.qualname, opt)
+                    if fld == opts[opt]:
+                        rep.ok("R4-columns", construct, "column %s carries self.%s" % (opt, fld))
+                    else:
+                        rep.violate("R4-columns", construct, "the column named by %s is filled with self.%s, not self.%s: a table written with the default options does not read "
+                                    "back the same object" % (opt, fld, opts[opt]), where(f, node), "self." + opts[opt], "self." + fld)
+        else:
+            # locals read from a column selected by an option
+            origin = {}
+
+            def opts_of(e, depth=0, seen=()):
+                """set of column options an expression depends on (through every definition of every local it reads)"""
+                out = set()
+                if depth > 6:
+                    return {"?"}
+                for x in ast.walk(e):
+                    if isinstance(x, ast.Name):
+                        if x.id in opts:
+                            out.add(x.id)
+                        elif x.id in defs and x.id not in ("df",) and x.id not in seen:
+                            for d in defs[x.id]:
+                                out |= opts_of(d, depth + 1, seen + (x.id,))
+                return out
+            for v, ds in defs.items():
+                reads = [d for d in ds if not (isinstance(d, ast.Constant) and d.value is None)]
+                if not reads or not any((".iloc[" in dump(d) or "df[" in dump(d)) for d in reads):
+                    continue
+                os_ = set()
+                for d in reads:
+                    os_ |= opts_of(d)
+                if len(os_) == 1 and "?" not in os_:
+                    origin[v] = sorted(os_)[0]
+            ctor = [c for c in walk_no_nested(f.node) if isinstance(c, ast.Call) and (dump(c.func) in ("cls",) or dump(c.func).startswith("cls."))]
+            for c in ctor:
+                kws, _ = kwargs_of(c)
+                for k, v in kws.items():
+                    if isinstance(v, ast.Name) and v.id in origin:
+                        nr += 1
+                        rep.saw(f)
+                        opt = origin[v.id]
+                        construct = "%s[%s]" % (f.qualname, opt)
+                        if opts[opt] == k:
+                            rep.ok("R4-columns", construct, "column %s feeds %s" % (opt, k))
+                        else:
+                            rep.violate("R4-columns", construct, "the column named by %s is handed to the constructor as %s, not as %s" % (opt, k, opts[opt]), where(f, c),
+                                        "%s=<column %s>" % (opts[opt], opt), "%s=%s" % (k, v.id))
+    rep.extra["column_pairs"] = {"written": nw, "read": nr}
+    rep.floor("R4-columns", 16)
+
+
 def run(prog, rep, tier):
     _orig_run2(prog, rep, tier)
     rep.floor("R5-vcf", 2)
     check_vcf(prog, rep, tier)
+    check_columns(prog, rep, tier)
